@@ -109,7 +109,7 @@ def run(ctx, eng):
     ctx.ob('FSM.step', fi.qual, 'missing cell => CLOSED + ProtocolError', ok,
            'an input without a cell closes the connection and raises',
            node=fi.node)
-    ok = any(e.kind == 'load' and T.show(e.key) ==
+    ok = any(e.kind == 'load' and cm.show0(e.key) ==
              '(self.state, input_)' for p in paths for e in p.events)
     ctx.ob('FSM.step', fi.qual, 'table lookup keyed by (state, input)', ok,
            'self._transitions[(self.state, input_)]', node=fi.node)
